@@ -254,7 +254,7 @@ def fp_drpcstream_inspectmu_inspectMutex_Unlocked : List String :=
   ["return", "==", "call:atomic.LoadUint32", "u&", "0"]
 def fp_drpcstream_stream_Stream_HandlePacket : List String :=
   ["if", "!=", "return", "call:drpcopts.GetStreamStats().AddRead", "call:drpcopts.GetStreamStats", 
-    "u&", "call:uint64", "call:len", "if", "call:s.IsFinished", "return", "call:s.log", "s:HANDLE", 
+    "u&", "call:uint64", "call:len", "if", "call:s.sigs.term.IsSet", "return", "call:s.log", "s:HANDLE", 
     "if", "==", "call:s.pbuf.Put", "return", "call:s.mu.Lock", "defer", "call:s.mu.Unlock", "switch", 
     "case", "=err", "call:drpc.ProtocolError.New", "s:invoke on existing stream", "call:s.terminate", 
     "return", "case", "=err", "call:drpcwire.UnmarshalError", "call:s.sigs.send.Set", "call:s.terminate", 
